@@ -17,16 +17,16 @@ import (
 // run over a stated finite domain. Never counted as proved obligations.
 
 type BoundedResult struct {
-	Name       string `json:"name"`
-	Package    string `json:"package"`
-	Test       string `json:"test"`
-	Cases      int    `json:"cases"`
-	Nontrivial int    `json:"nontrivial"`
-	Exhaustive bool   `json:"exhaustive_over_stated_domain"`
-	Domain     string `json:"domain"`
-	Passed     bool   `json:"passed"`
-	Secs       float64 `json:"secs"`
-	Output     string `json:"-"`
+	Name       string           `json:"name"`
+	Package    string           `json:"package"`
+	Test       string           `json:"test"`
+	Cases      int              `json:"cases"`
+	Nontrivial int              `json:"nontrivial"`
+	Exhaustive bool             `json:"exhaustive_over_stated_domain"`
+	Domain     string           `json:"domain"`
+	Passed     bool             `json:"passed"`
+	Secs       float64          `json:"secs"`
+	Output     string           `json:"-"`
 	Findings   []BoundedFinding `json:"classified_findings,omitempty"`
 }
 
